@@ -137,7 +137,17 @@ func (err *yamlParseError) Error() string {
 			}
 		}
 	}
-	linestr, line, column := getLineByOffset(err.contents, index+1)
+	offset := len(err.contents)
+	for i, r := range err.contents { // the index counts characters, not bytes
+		if i == 0 && r == '\uFEFF' {
+			continue // except for a byte order mark
+		}
+		if index--; index < 0 {
+			offset = i
+			break
+		}
+	}
+	linestr, line, column := getLineByOffset(err.contents, offset+1)
 	return fmt.Sprintf("invalid yaml: %s:%d\n%s  %s",
 		err.fname, line, formatLineInfo(linestr, line, column), message)
 }
